@@ -20,7 +20,10 @@ import (
 type accCase struct {
 	RawQuery core.B `json:"raw_query"`
 	Name     string `json:"name"`
-	Param    core.B `json:"param_segment"` // raw path segment bound to {v}
+	Param    core.B `json:"param_segment"`       // raw path segment bound to {v}
+	Form     string `json:"form_body,omitempty"` // POST with this urlencoded body; an earlier handler has parsed the form. Query accessors read the URL's query only
+	XFF      core.B `json:"x_forwarded_for,omitempty"`
+	XRealIP  core.B `json:"x_real_ip,omitempty"`
 }
 
 // cookieCase: a value written with SetCookie, sent back by a client, read with Cookie.
@@ -64,6 +67,7 @@ type accReadings struct {
 	AfterSliceEdit           string // Query(name) after the caller edited the slice QueryStrings returned
 	AfterRewrite             string // Query("rewritten") after a handler rewrote URL.RawQuery
 	AfterRewriteInt          int
+	RemoteAddr               string
 }
 
 const (
@@ -123,6 +127,15 @@ func accOracle(c *accCase) accReadings {
 	w.ParamsLen = 2 // v and route
 	w.AfterSliceEdit = w.Query
 	w.AfterRewrite, w.AfterRewriteInt = "77", 77 // accessors read the request as it is now
+	// RemoteAddr: X-Real-IP if non-empty, else X-Forwarded-For if non-empty (as carried), else the connection's address without the port
+	switch {
+	case c.XRealIP != "":
+		w.RemoteAddr = string(c.XRealIP)
+	case c.XFF != "":
+		w.RemoteAddr = string(c.XFF)
+	default:
+		w.RemoteAddr = "192.0.2.7"
+	}
 	return w
 }
 
@@ -207,6 +220,12 @@ func genAccCase(rng *rand.Rand) *accCase {
 		seg = url.PathEscape(seg)
 	}
 	c.Param = core.B(seg)
+	if rng.Intn(6) == 0 {
+		// a form body that repeats the queried names with other values
+		c.Form = "q=" + url.QueryEscape(accValues[rng.Intn(len(accValues))]) + "&q=second&lang=body&other=1"
+	}
+	fw := []string{"", "", "", "10.0.0.1", "10.0.0.1, 10.0.0.2", ",", ", ,", " ", ",,", "::1", "é", "\x00"}
+	c.XFF, c.XRealIP = core.B(fw[rng.Intn(len(fw))]), core.B(fw[rng.Intn(len(fw))])
 	return c
 }
 
@@ -216,7 +235,11 @@ func judgeAcc(w *core.W, c *accCase) {
 	ran := false
 	f := flamego.NewWithLogger(io.Discard)
 	n := c.Name
-	f.Get("/p/{v}", func(ctx flamego.Context) {
+	f.Any("/p/{v}", func(ctx flamego.Context) {
+		if c.Form != "" {
+			_ = ctx.Request().ParseForm() // what a form-binding middleware does before the handler runs
+		}
+	}, func(ctx flamego.Context) {
 		ran = true
 		got.Query, got.QueryD = ctx.Query(n), ctx.Query(n, defS)
 		got.Trim, got.TrimD = ctx.QueryTrim(n), ctx.QueryTrim(n, defS)
@@ -230,6 +253,7 @@ func judgeAcc(w *core.W, c *accCase) {
 		got.ParamInt, got.ParamIntAbsent = ctx.ParamInt("v"), ctx.ParamInt("nope")
 		got.ParamInt64 = ctx.ParamInt64("v")
 		got.ParamsLen = len(ctx.Params())
+		got.RemoteAddr = ctx.RemoteAddr()
 		// state must not be carried across calls: editing a returned slice or rewriting the query (the usual
 		// rewrite-middleware pattern) is reflected by / does not disturb later reads
 		if ss := ctx.QueryStrings(n); len(ss) > 0 {
@@ -242,7 +266,20 @@ func judgeAcc(w *core.W, c *accCase) {
 	var pan interface{}
 	func() {
 		defer func() { pan = recover() }()
-		f.ServeHTTP(&retSpy{h: http.Header{}}, &http.Request{Method: "GET", URL: &url.URL{Path: "/p/" + string(c.Param), RawQuery: string(c.RawQuery)}, Header: http.Header{}})
+		req := &http.Request{Method: "GET", URL: &url.URL{Path: "/p/" + string(c.Param), RawQuery: string(c.RawQuery)}, Header: http.Header{}, RemoteAddr: "192.0.2.7:4711"}
+		if c.Form != "" {
+			req.Method = "POST"
+			req.Header.Set("Content-Type", "application/x-www-form-urlencoded")
+			req.Body = io.NopCloser(strings.NewReader(c.Form))
+			w.Count("form-body-parsed-before-reading")
+		}
+		if c.XFF != "" {
+			req.Header["X-Forwarded-For"] = []string{string(c.XFF)}
+		}
+		if c.XRealIP != "" {
+			req.Header["X-Real-Ip"] = []string{string(c.XRealIP)}
+		}
+		f.ServeHTTP(&retSpy{h: http.Header{}}, req)
 	}()
 	if pan != nil {
 		w.Violate("accessor-panic", c, fmt.Sprintf("reading request data panicked: %v", pan))
@@ -410,6 +447,14 @@ func runC18(r *core.Run) {
 		w.Begin("cookie", c)
 		judgeCookie(w, c)
 	})
+	longs := []string{strings.Repeat("a", 4000), strings.Repeat("a", 4090), strings.Repeat("a", 4097), strings.Repeat("a", 4200), strings.Repeat("中", 1400), strings.Repeat(";=,", 900), strings.Repeat("b", 8192), strings.Repeat(" ", 3000)}
+	r.Parallel("cookieL", len(longs), func(w *core.W, _ *rand.Rand, i int) {
+		c := &cookieCase{Name: "n", Value: core.B(longs[i])}
+		w.Begin("cookie", c)
+		w.Count("cookie-long-values")
+		judgeCookie(w, c)
+	})
+	r.GateCounter("cookie-long-values", int64(len(longs)))
 	r.Parallel("cookieR", r.N(20000, 2000000), func(w *core.W, rng *rand.Rand, i int) {
 		b := make([]byte, rng.Intn(40))
 		for j := range b {
@@ -423,7 +468,7 @@ func runC18(r *core.Run) {
 		w.Begin("cookie", c)
 		judgeCookie(w, c)
 	})
-	for _, k := range []string{"class:absent", "class:empty", "class:well-formed-int", "class:well-formed-float", "class:well-formed-bool", "class:malformed", "class:out-of-range", "class:needs-escaping", "multi-valued", "cookie-class:empty", "cookie-class:plain", "cookie-class:separators", "cookie-class:non-ascii-or-control"} {
+	for _, k := range []string{"class:absent", "class:empty", "class:well-formed-int", "class:well-formed-float", "class:well-formed-bool", "class:malformed", "class:out-of-range", "class:needs-escaping", "multi-valued", "form-body-parsed-before-reading", "cookie-class:empty", "cookie-class:plain", "cookie-class:separators", "cookie-class:non-ascii-or-control"} {
 		r.GateCounter(k, 20)
 	}
 	r.GateCounter("cookie-single-bytes", 256)
